@@ -487,3 +487,241 @@ Lemma wit_case_unscoped_judged :
   agree wit_case_stranger = true /\ m_tmpl (monitor wit_case_stranger) = false /\
   agree wit_case_unlabelled = true /\ m_valid (monitor wit_case_unlabelled) = false.
 Proof. vm_compute. repeat split. Qed.
+
+(** ** Quiescence: the template fits the current spec (m_fit) *)
+
+(** What is remembered between passes for this clause: current spec, last persisted unpackedHash,
+    last stored ObjectDeployment, whether the scenario disturbs the next pass, and [f_ab]: a failed
+    pass has written the ObjectDeployment without moving unpackedHash (the stored template belongs
+    to an aborted spec) and the hash has not moved since. *)
+Record fview := { f_spec : spec; f_hash : option spec; f_od : option od; f_armed : bool; f_ab : bool }.
+
+(** A pass the scenario does not disturb, that ends without error, for an unpaused, valid and
+    admissible package: afterwards the stored template is the render of the current spec -
+    whether the pass had anything to do or not. *)
+Definition fit_pass (dg : N -> N -> N -> N) (v : fview) (o : oracle) (b : obs) : bool :=
+  implb (negb (f_armed v) && negb (ob_err b) && negb (s_paused (f_spec v)) && all_ok o)
+        (option_eqb tmpl_eqb (tmpl_of (ob_od b)) (Some (Some (spec_digest dg (f_spec v))))).
+
+Definition fview_after (v : fview) (b : obs) : fview :=
+  {| f_spec := f_spec v; f_hash := ob_hash b; f_od := ob_od b; f_armed := false;
+     f_ab := if option_eqb spec_eqb (ob_hash b) (f_hash v)
+             then f_ab v || (ob_err b && od_changed (f_od v) (ob_od b))
+             else false |}.
+
+Definition fview_edit (v : fview) (sp : spec) : fview :=
+  {| f_spec := sp; f_hash := f_hash v; f_od := f_od v; f_armed := f_armed v; f_ab := f_ab v |}.
+Definition fview_arm (v : fview) : fview :=
+  {| f_spec := f_spec v; f_hash := f_hash v; f_od := f_od v; f_armed := true; f_ab := f_ab v |}.
+
+Fixpoint mon_fit (dg : N -> N -> N -> N) (sem : bool) (ps : peers) (v : fview) (steps : list step) (obss : list obs) : bool :=
+  match steps with
+  | [] => true
+  | SEdit sp :: r => mon_fit dg sem ps (fview_edit v sp) r obss
+  | SFault _ _ :: r | SDisturb _ :: r => mon_fit dg sem ps (fview_arm v) r obss
+  | SPass o :: r =>
+      match obss with
+      | [] => true
+      | b :: bs => fit_pass dg v (seen sem ps o) b && mon_fit dg sem ps (fview_after v b) r bs
+      end
+  end.
+
+(** The pattern behind F-C16c, on the scenario and the observations: a failed pass wrote the
+    ObjectDeployment (template changed) without moving status.unpackedHash, the hash has not moved
+    since, and now the spec is edited to the very spec whose hash is stored - the next pass will
+    take the "already unpacked" short cut over a template that belongs to the aborted spec. *)
+Fixpoint revert_hit (v : fview) (steps : list step) (obss : list obs) : bool :=
+  match steps with
+  | [] => false
+  | SEdit sp :: r => (f_ab v && hash_eqb (f_hash v) sp) || revert_hit (fview_edit v sp) r obss
+  | SFault _ _ :: r | SDisturb _ :: r => revert_hit (fview_arm v) r obss
+  | SPass _ :: r =>
+      match obss with
+      | [] => false
+      | b :: bs => revert_hit (fview_after v b) r bs
+      end
+  end.
+
+Definition init_fview (sp : spec) : fview :=
+  {| f_spec := sp; f_hash := None; f_od := None; f_armed := false; f_ab := false |}.
+
+Definition fit (c : case) : bool :=
+  let '(_, t, sp, ps, steps, obss) := c in mon_fit (digest_of t) true ps (init_fview sp) steps obss.
+(** m_fit if uniqueness were judged over every (Cluster)Package (see [monitor_unscoped]) *)
+Definition fit_unscoped (c : case) : bool :=
+  let '(_, t, sp, ps, steps, obss) := c in mon_fit (digest_of t) false ps (init_fview sp) steps obss.
+Definition reverted (c : case) : bool :=
+  let '(_, _, sp, _, steps, obss) := c in revert_hit (init_fview sp) steps obss.
+
+(** agree, the clauses, the verdict under the implementation's notion of uniqueness, m_fit, the
+    F-C16c pattern *)
+Definition judge2 (c : case) :=
+  (judge c, fit c, fit_unscoped c, reverted c).
+
+(** every pass is over a valid package without uniqueInScope constraint whose constraints are met
+    (the pull may fail) *)
+Definition content_ok (o : oracle) : bool :=
+  o_load o && o_range_ok o && is_nil (o_unmet o) && negb (is_some (o_unique o)) && config_ok o
+  && o_images o && o_render o.
+Fixpoint valid_only (steps : list step) : bool :=
+  match steps with
+  | [] => true
+  | SPass o :: r => content_ok o && valid_only r
+  | _ :: r => valid_only r
+  end.
+
+Lemma content_ok_seen sc ps o : content_ok o = true -> seen sc ps o = o.
+Proof.
+  unfold content_ok. rewrite !andb_true_iff. intros [[[[[[_ _] _] Hu] _] _] _].
+  unfold seen. destruct (o_unique o); [discriminate|reflexivity].
+Qed.
+
+Lemma content_ok_all o : content_ok o = true -> all_ok o = o_pull o.
+Proof.
+  unfold content_ok. rewrite !andb_true_iff. intros [[[[[[Hl Hr] Hm] Hu] Hc] Hi] Hre].
+  unfold all_ok, stages_ok, cons_err, unmet, unique_err, unique_unmet.
+  destruct (o_unique o); [discriminate|]. rewrite Hl, Hr, Hm, Hc, Hi, Hre. cbn. now rewrite !andb_true_r.
+Qed.
+
+Section Fit.
+  Variable dg : N -> N -> N -> N.
+
+  Notation pass1 := (pass0 dg true).
+
+  Lemma pass1_spec o w f d : p_spec (w_pkg (st_w (r_st (pass1 o w f d)))) = p_spec (w_pkg w).
+  Proof.
+    unfold pass0. symmetry.
+    apply (reconcile_inv dg true o (fun w' => p_spec (w_pkg w) = p_spec (w_pkg w')) (w_pkg w)); auto.
+    - intros b w' H. unfold eff_pause. now destruct (w_od w').
+    - intros _ w' H. unfold eff_update. now destruct (w_od w').
+  Qed.
+
+  (** an error-free pass that leaves unpackedHash alone leaves the template alone *)
+  Lemma clean_same_hash_same_tmpl o w f d :
+    let r := pass1 o w f d in
+    r_err r = false -> p_hash (w_pkg (st_w (r_st r))) = p_hash (w_pkg w) -> od_tmpl (st_w (r_st r)) = od_tmpl w.
+  Proof.
+    intros r He Hh. unfold r, pass0 in *.
+    set (s := {| st_w := w; st_f := f; st_d := d; st_dirty := false; st_log := [] |}) in *.
+    destruct (reconcile_ok dg true o s He) as [[Hw _] _]. rewrite Hw in *. cbn [st_w s] in *.
+    assert (Hps : od_tmpl (pause_sync w) = od_tmpl w).
+    { unfold pause_sync. destruct (Bool.eqb _ _); [reflexivity|]. apply same_od_pause. }
+    unfold ok_world, ok_unpack, ok_deploy, ok_rest, deployed in *.
+    destruct (s_paused (p_spec (w_pkg w))); [exact Hps|].
+    destruct (hash_eqb (p_hash (w_pkg w)) (p_spec (w_pkg w))) eqn:Eh; [exact Hps|].
+    destruct (o_pull o); cbn [negb] in *; [|exact Hps].
+    exfalso.
+    assert (Hnew : p_hash (w_pkg w) = Some (p_spec (w_pkg w))).
+    { rewrite <- Hh. destruct (o_load o); cbn [negb]; [|reflexivity].
+      destruct (true && negb (is_nil (msgs_of o))); cbn; unfold note_msgs; now destruct (is_nil (msgs_of o)). }
+    rewrite Hnew in Eh. cbn in Eh. now rewrite spec_eqb_refl in Eh.
+  Qed.
+
+  Variable scoped : bool.
+  Variable ps : peers.
+
+  Definition fconsistent (v : fview) (w : world) (f : list rstat) (d : list bool) : Prop :=
+    f_spec v = p_spec (w_pkg w) /\ f_hash v = p_hash (w_pkg w) /\ f_od v = w_od w /\
+    (f_armed v = false -> f = [] /\ d = []) /\
+    (* as long as no aborted write is pending the template is the render of the spec behind unpackedHash *)
+    (f_ab v = false -> forall h, p_hash (w_pkg w) = Some h -> od_tmpl w = Some (Some (spec_digest dg h))) /\
+    (f_ab v = true -> hash_eqb (p_hash (w_pkg w)) (p_spec (w_pkg w)) = false).
+
+  Lemma hash_eqb_true h sp : hash_eqb h sp = true -> h = Some sp.
+  Proof. unfold hash_eqb. destruct h; [|discriminate]. intros H. apply spec_eqb_eq in H. now subst. Qed.
+
+  Lemma option_spec_eqb_eq (a b : option spec) : option_eqb spec_eqb a b = true <-> a = b.
+  Proof. apply option_eqb_spec. apply spec_eqb_eq. Qed.
+
+  Lemma fit_sound steps : forall w f d v,
+    valid_only steps = true -> w_peers w = ps -> fconsistent v w f d ->
+    revert_hit v steps (map norm_obs (run dg true scoped steps w f d)) = false ->
+    mon_fit dg true ps v steps (map norm_obs (run dg true scoped steps w f d)) = true.
+  Proof.
+    induction steps as [|x steps IH]; intros w f d v Hval Hps Hc Hrv; cbn; [reflexivity|].
+    destruct Hc as (Hsp & Hh & Hod & Harm & Hfit & Hab).
+    destruct x as [sp|n k|n|o]; cbn in Hrv, Hval.
+    - (* edit *)
+      apply orb_false_iff in Hrv. destruct Hrv as [Hno Hrv]. apply IH; try assumption.
+      + unfold edit. now destruct (spec_eqb sp (p_spec (w_pkg w))).
+      + unfold fconsistent, fview_edit, edit. cbn.
+        destruct (spec_eqb sp (p_spec (w_pkg w))) eqn:E; cbn.
+        * apply spec_eqb_eq in E. subst sp. repeat split; auto; now apply Harm.
+        * repeat split; auto; try (now apply Harm). intros Ha. rewrite Ha in Hno. cbn in Hno. now rewrite <- Hh.
+    - apply IH; try assumption. unfold fconsistent, fview_arm. cbn. repeat split; auto; discriminate.
+    - apply IH; try assumption. unfold fconsistent, fview_arm. cbn. repeat split; auto; discriminate.
+    - (* pass *)
+      apply andb_true_iff in Hval. destruct Hval as [Hco Hval].
+      change (do_pass dg true scoped o w f d) with (pass1 (seen scoped (w_peers w) o) w f d) in *.
+      rewrite (content_ok_seen scoped _ o Hco) in *. rewrite (content_ok_seen true ps o Hco).
+      set (r := pass1 o w f d) in *.
+      set (s := {| st_w := w; st_f := f; st_d := d; st_dirty := false; st_log := [] |}).
+      assert (Hr : r = pass_gen dg true o s) by reflexivity.
+      assert (Hspec := pass1_spec o w f d). fold r in Hspec.
+      pose proof (hash_moves dg true o s) as Hm. cbn zeta in Hm. unfold stored_pkg in Hm. rewrite <- Hr in Hm. cbn [st_w s] in Hm.
+      apply andb_true_iff. split.
+      + (* the clause *)
+        unfold fit_pass, norm_obs, obs_of. cbn [ob_err ob_od].
+        destruct (negb (f_armed v) && negb (r_err r) && negb (s_paused (f_spec v)) && all_ok o) eqn:E; [|reflexivity].
+        cbn [implb]. rewrite !andb_true_iff in E. destruct E as [[[E1 E2] E3] E4].
+        apply negb_true_iff in E1, E2, E3. rewrite Hsp in E3.
+        unfold tmpl_of. change (option_map d_tmpl (w_od (st_w (r_st r)))) with (od_tmpl (st_w (r_st r))).
+        destruct (hash_eqb (p_hash (w_pkg w)) (p_spec (w_pkg w))) eqn:Eh.
+        * (* short cut: nothing pending, so the template already fits *)
+          destruct (f_ab v) eqn:Ea; [discriminate (Hab eq_refl)|].
+          destruct (unchanged_no_pull dg true o s Eh) as (_ & _ & _ & Ht). rewrite <- Hr in Ht. cbn [st_w s] in Ht.
+          rewrite Ht, (Hfit eq_refl _ (hash_eqb_true _ _ Eh)), Hsp. cbn. apply N.eqb_refl.
+        * assert (Hreach : reach (w_pkg (st_w s)) = true) by (unfold reach; cbn; now rewrite E3, Eh).
+          destruct (changed_template dg true o s Hreach E4 E2) as (Ht & _). rewrite <- Hr in Ht. cbn [st_w s] in Ht.
+          rewrite Ht, Hsp. cbn. apply N.eqb_refl.
+      + (* the rest of the history *)
+        apply IH; try assumption.
+        * unfold r. now rewrite pass0_peers.
+        * unfold fconsistent, fview_after, norm_obs, obs_of. cbn.
+          split; [now rewrite Hspec|]. split; [reflexivity|]. split; [reflexivity|]. split; [now split|].
+          rewrite Hh, Hod.
+          destruct (option_eqb spec_eqb (p_hash (w_pkg (st_w (r_st r)))) (p_hash (w_pkg w))) eqn:Eeq.
+          -- (* unpackedHash did not move *)
+             apply option_spec_eqb_eq in Eeq. rewrite Eeq, Hspec.
+             assert (Hsame : r_err r && od_changed (w_od w) (w_od (st_w (r_st r))) = false ->
+                             od_tmpl (st_w (r_st r)) = od_tmpl w).
+             { intros Hf. apply andb_false_iff in Hf. destruct Hf as [Hf|Hf].
+               - now apply clean_same_hash_same_tmpl.
+               - unfold od_changed in Hf. apply negb_false_iff in Hf.
+                 apply (option_eqb_spec tmpl_eqb tmpl_eqb_eq) in Hf. unfold tmpl_of in Hf. unfold od_tmpl. now rewrite Hf. }
+             split.
+             ++ intros Hf. apply orb_false_iff in Hf. destruct Hf as [Ha Hf]. rewrite (Hsame Hf). now apply Hfit.
+             ++ intros Hf. apply orb_true_iff in Hf. destruct Hf as [Ha|Hf]; [now apply Hab|].
+                destruct (hash_eqb (p_hash (w_pkg w)) (p_spec (w_pkg w))) eqn:Eh; [|reflexivity]. exfalso.
+                destruct (unchanged_no_pull dg true o s Eh) as (_ & _ & _ & Ht). rewrite <- Hr in Ht. cbn [st_w s] in Ht.
+                apply andb_true_iff in Hf. destruct Hf as [_ Hf]. unfold od_changed in Hf. apply negb_true_iff in Hf.
+                unfold od_tmpl in Ht. unfold tmpl_of in Hf. rewrite Ht in Hf. now rewrite option_tmpl_eqb_refl in Hf.
+          -- (* unpackedHash moved: to the current spec, together with the template *)
+             split; [|discriminate]. intros _ h Hhh.
+             destruct Hm as [Hm|(Hm & Hpull & Ht)].
+             ++ rewrite Hm in Eeq. now rewrite option_spec_eqb_refl in Eeq.
+             ++ rewrite Hm in Hhh. injection Hhh as <-. apply Ht. unfold deployable. rewrite (content_ok_all o Hco). exact Hpull.
+  Qed.
+End Fit.
+
+(** m_fit holds on every history of valid packages (pull failures, API faults, third-party writes,
+    pausing and edits included) in which the F-C16c pattern does not occur - for either List. *)
+Theorem fit_partial sc scoped t sp ps steps :
+  valid_only steps = true ->
+  reverted (sc, t, sp, ps, steps, model_obs_gen true scoped t sp ps steps) = false ->
+  fit (sc, t, sp, ps, steps, model_obs_gen true scoped t sp ps steps) = true.
+Proof.
+  intros Hv Hr. unfold fit, reverted, model_obs_gen in *. apply fit_sound; try assumption.
+  - reflexivity.
+  - unfold fconsistent, init_fview, init_world. cbn. repeat split; try discriminate.
+Qed.
+
+(** ... and fails with it: the witness of F-C16c ([revert_steps] of PackageProofs.v). *)
+Definition wit_case_revert : case :=
+  (false, [(1, 0, 0, 2); (2, 0, 0, 3)], wit_spec, no_peers, revert_steps,
+   model_obs [(1, 0, 0, 2); (2, 0, 0, 3)] wit_spec no_peers revert_steps).
+
+Lemma wit_case_revert_judged :
+  agree wit_case_revert = true /\ verdict_all (monitor wit_case_revert) = true /\
+  fit wit_case_revert = false /\ reverted wit_case_revert = true.
+Proof. vm_compute. repeat split. Qed.
